@@ -30,7 +30,7 @@ GATED = {"exceptions": "exception", "importants": "important", "csp": "csp",
 
 
 def check(run):
-    for cfg in ("A", "B"):
+    for cfg in run.cfgs("A", "B"):
         F = run.facts(cfg)
         run.guard("C07.1.tag-gate", cfg, lambda: rule_tag_gate(run, F, cfg))
         run.guard("C07.2.gate-shape", cfg, lambda: rule_gate_shape(run, F, cfg))
